@@ -111,7 +111,7 @@ def gen_cases(tier, seed):
     basis = [('a', (0, 0, 1)), ('*', (0, 0, 0)), ('p|a', (0, 0, 1)), ('*|b', (0, 0, 1)), ('|b', (0, 0, 1)),
              ('#i', (1, 0, 0)), ('.c', (0, 1, 0)), ('[x]', (0, 1, 0)), ('[q|x~="v"]', (0, 1, 0)),
              (':hover', (0, 1, 0)), (':nth-child(2n+1)', (0, 1, 0)), (':before', (0, 0, 1)), ('::after', (0, 0, 1)),
-             (':lang(en)', (0, 1, 0)), (':where(a)', (0, 0, 0))]
+             (':lang(en)', (0, 1, 0)), (':where(a)', (0, 0, 0)), ('::part(x)', (0, 0, 1))]
     heads = basis[:5]
     tails = basis[5:]
     for h in [None] + heads:
@@ -121,7 +121,7 @@ def gen_cases(tier, seed):
                     continue
                 parts = ([h] if h else []) + list(combo)
                 # a pseudo-element must be last
-                bad = any(p[0] in (':before', '::after') for p in parts[:-1])
+                bad = any(p[0] in (':before', '::after', '::part(x)') for p in parts[:-1])
                 if bad:
                     continue
                 text = ''.join(p[0] for p in parts)
